@@ -259,6 +259,9 @@ class Tr:
         if isinstance(node, ast.Subscript):
             base, tb = self.expr(node.value, env)
             idx = node.slice
+            if isinstance(idx, ast.UnaryOp) and isinstance(idx.op, ast.USub) and isinstance(idx.operand, ast.Constant) \
+                    and isinstance(idx.operand.value, int):
+                idx = ast.Constant(value=-idx.operand.value)          # t[-1]
             if isinstance(tb, tuple) and tb[0] == "tuple" and isinstance(idx, ast.Constant) and isinstance(idx.value, int):
                 n = len(tb[1])
                 i = idx.value if idx.value >= 0 else n + idx.value
@@ -858,12 +861,18 @@ class Tr:
     def subscript_store(self, s, tgt, env, cont):
         """`name[k] = e` on a tuple-typed (list-valued) variable with a constant index"""
         base = self.dotted(tgt.value)
+        sl_ = tgt.slice
+        if isinstance(sl_, ast.UnaryOp) and isinstance(sl_.op, ast.USub) and isinstance(sl_.operand, ast.Constant) \
+                and isinstance(sl_.operand.value, int):
+            sl_ = ast.Constant(value=-sl_.operand.value)
         if base is None or base not in env or not (isinstance(env[base][1], tuple) and env[base][1][0] == "tuple") \
-                or not (isinstance(tgt.slice, ast.Constant) and isinstance(tgt.slice.value, int)):
+                or not (isinstance(sl_, ast.Constant) and isinstance(sl_.value, int)):
             raise TranslationError(f"assignment target {ast.unparse(tgt)}")
         e0, t0 = env[base]
         n = len(t0[1])
-        i = tgt.slice.value if tgt.slice.value >= 0 else n + tgt.slice.value
+        i = sl_.value if sl_.value >= 0 else n + sl_.value
+        if not 0 <= i < n:
+            raise TranslationError(f"index out of range in {ast.unparse(tgt)}")
         e, t = self.expr(s.value, env)
         parts = [proj(e0, j, n) for j in range(n)]
         parts[i] = self.coerce(e, t, t0[1][i])
